@@ -46,7 +46,11 @@ LEVEL_TEXT = ("Proved in Lean for every operation history (no length bound): the
 LEVEL_NOTE = ("Trusted: Lean kernel + propext/Quot.sound/Classical.choice, the hand-written model "
               "(Model/Dispatcher.lean) whose fidelity is what the correspondence samples, the harness. Listeners that "
               "raise, re-enter the dispatcher or are registered twice are outside the generated histories (the "
-              "theorems cover double registration, the correspondence does not).")
+              "theorems cover double registration, the correspondence does not). That no callable is registered twice "
+              "for one event - the hypothesis under which a dispatch calls each LISTENER once and get_listener_priority "
+              "is determined (dispatch_each_once_decided, query_get_priority_decided) - is decided by the model on the "
+              "log of every generated history (answer field wf.reg_once, theorem reg_once_decides) and compared with "
+              "what the history says.")
 LEAN_MODULES = ["Clikit.Props.C12"]
 REQUIRED_THEOREMS = ["Clikit.Props.C12." + n for n in (
     "specOrder_perm", "specOrder_mem", "specOrder_sorted", "specOrder_stable", "specOrder_unique",
@@ -54,7 +58,8 @@ REQUIRED_THEOREMS = ["Clikit.Props.C12." + n for n in (
     "run_refines_spec", "no_error", "output_at", "cache_inv", "buckets_inv", "dispatch_spec",
     "late_registration", "query_has_listeners", "query_get_listeners", "query_get_all_listeners",
     "query_get_priority", "query_get_priority_unique", "pure_queries", "specRun_acceptable",
-    "run_eq_specRun")]
+    "run_eq_specRun", "cache_inv_total", "reg_once_decides", "dispatch_each_once_decided",
+    "query_get_priority_decided")]
 RULE = ("histories over {register(2 events x 3 priorities x stops?), dispatch(3 events), get_listeners(3 events | none)} "
         "enumerated exhaustively: quick - every history up to length 4, and up to length 3 with dispatches of an "
         "already stopped event; thorough - every history up to length 4, every history of length 5 up to swapping "
@@ -74,7 +79,8 @@ TRUSTED_BASE = [
 ]
 ASSUMPTIONS = [
     "listeners do not raise, do not call back into the dispatcher and each callable is registered once (the Lean theorems "
-    "also cover a callable registered several times; the correspondence does not generate it)",
+    "also cover a callable registered several times; the correspondence does not generate it; 'once per event' is "
+    "decided by the model on every history - wf.reg_once - and compared with the history)",
     "event names and priorities matter only through equality resp. order (histories use 3 names and 3 priorities per case)",
     "a dispatch with an event whose propagation is already stopped must call nobody (reading of 'until propagation stops'; "
     "needed to tell 'check before the call' from 'check after the call')",
@@ -305,6 +311,17 @@ def run_impl(case):
     return {"outs": outs}
 
 
+def _reg_once(case):
+    """no callable is registered twice for one event (the generator uses a fresh callable per registration)"""
+    seen = set()
+    for o in expand(case):
+        if o[0] == "reg":
+            if (o[1], o[4]) in seen:
+                return False
+            seen.add((o[1], o[4]))
+    return True
+
+
 def impl_view(case, obs):
     """what is compared with the model: everything but `args_ok` (the model has no arguments)"""
     outs = []
@@ -312,7 +329,7 @@ def impl_view(case, obs):
         if o[0] == "disp" and isinstance(out, list):
             out = out[:2]
         outs.append(out)
-    return {"outs": outs, "spec_agrees": True}
+    return {"outs": outs, "spec_agrees": True, "reg_once": _reg_once(case)}
 
 
 # --------------------------------------------------------------------------- model
@@ -349,7 +366,7 @@ def model_obs(case, answers):
         return {"model_raised": a.get("err"), "spec": _canon_outs(a.get("spec", []))}
     outs = _canon_outs(a["ok"]["outs"])
     spec = _canon_outs(a["ok"]["spec"])
-    return {"outs": outs, "spec_agrees": outs == spec}
+    return {"outs": outs, "spec_agrees": outs == spec, "reg_once": (a.get("wf") or {}).get("reg_once")}
 
 
 # --------------------------------------------------------------------------- the property statement
